@@ -12,13 +12,14 @@ LEVEL = "exploration"
 RULE = ("three generated case families: (hard) small-domain programs with a dist statement (values, ranges, zero weights, "
         "weights given by non-random fields) plus arbitrary accompanying constraints: every free draw and two-directional "
         "pinned probes against the enumerated reference, where dist = 'value in an entry with non-zero weight'; (freq) a "
-        "field constrained only by a dist with disjoint entries and small integer weights: N seeded draws, exact two-sided "
+        "field constrained only by a dist with disjoint entries and small integer weights (optionally linked to another "
+        "constrained field by an always-true statement, so that their rand sets merge): N seeded draws, exact two-sided "
         "binomial test per entry (weight/total) and per value inside a range (uniform), zero-weight/unlisted values never; "
         "(select) distselect/randselect under a generated global random seed: same tests, randselect calls exactly the "
         "chosen callable once.  non-trivial = the weight list has a zero weight, a range entry and unequal weights (hard: "
         "and the program is satisfiable with a proper solution subset); distinct = distinct canonical case")
 ASSUMPTIONS = [
-    "frequencies are asserted only for a dist field that no other statement mentions, with disjoint entries and positive total weight",
+    "frequencies are asserted only for a dist field that no other statement restricts (another statement may name it only inside an always-true disjunction that links it to a second rand set), with disjoint entries and positive total weight",
     "exact binomial tails; a frequency is rejected when its two-sided tail is below 1e-9/m with m = 2000 tests per run (alpha/m = 5e-13)",
     "one dist per field, at block top level; weights are literals or non-random fields (their current value counts)",
 ]
@@ -119,6 +120,12 @@ def freq_cases(d):
     if total_weight(dist, env0) <= 0:
         dist[2][0][1] = ["lit", 2]
     stmts.insert(d.randint(0, len(stmts)), dist)
+    if len(stmts) == 2 and d.chance(65):
+        # a statement that is always true but names both the dist field and the other field: the two rand sets meet and
+        # merge (in either direction, depending on the operand order) without changing the solution set
+        t1 = ["bin", "<=", ["f", "g0"], ["lit", 7]]
+        t2 = ["bin", "==", ["f", "f0"], ["lit", d.randint(0, 3)]]
+        stmts.append(["expr", ["bin", "|", t1, t2] if d.chance(50) else ["bin", "|", t2, t1]])
     prog = {"enums": {}, "classes": [{"name": "T", "fields": fs, "blocks": [{"name": "c0", "stmts": stmts}]}]}
     return {"kind": "freq", "prog": prog, "seed": d.seed(), "calls": d.choice(["randomize", "randomize_with"])}
 
